@@ -34,7 +34,7 @@ REQUIRED_CLAUSES = [
     'outcome-equals-model', 'illegal-call-raises-RuntimeError', 'illegal-call-leaves-watch-unchanged',
     'elapsed-nonnegative', 'elapsed-nonnegative-backwards-clock', 'elapsed-le-maximum',
     'elapsed-is-distance-from-last-restart-while-running', 'elapsed-is-distance-to-stop-instant-while-stopped',
-    'clock-replaced-after-construction', 'watch-copied-mid-history', 'two-watches-interleaved', 'decimal-readings-consistency', 'leftover-is-max0-duration-minus-elapsed', 'leftover-nonnegative-backwards-clock',
+    'under-warnings-as-errors', 'clock-replaced-after-construction', 'watch-copied-mid-history', 'two-watches-interleaved', 'decimal-readings-consistency', 'leftover-is-max0-duration-minus-elapsed', 'leftover-nonnegative-backwards-clock',
     'leftover-without-duration', 'expired-iff-elapsed-exceeds-duration', 'expired-false-without-duration',
     'observable-state-equals-model', 'splits-nondecreasing-lengths-are-differences',
     'splits-cleared-by-restart', 'illegal-call-raises-RuntimeError-backwards-clock',
@@ -367,6 +367,16 @@ def _call_and_check(K, w, m, op, t):
 # one self-contained case (also the replay entry)
 # ----------------------------------------------------------------------
 def _evaluate(K, case):
+    if case.get('warnings_as_errors'):
+        # the process turns warnings into errors (python -W error): a watch that warns about a clock anomaly no longer answers
+        from vlib import envmodes
+        K.bump('under-warnings-as-errors')
+        with envmodes.warnings_as_errors():
+            return _evaluate_inner(K, case)
+    return _evaluate_inner(K, case)
+
+
+def _evaluate_inner(K, case):
     ctx = K.ctx
     if case.get('kind') == 'with':
         return _evaluate_with(K, case)
@@ -721,6 +731,8 @@ def run(ctx):
                 case = random_case(crng, backwards=i >= n_mono)
                 if i % 3 == 1:
                     case['swap_clock'] = True
+                if i % 4 == 2:
+                    case['warnings_as_errors'] = True
                 if i % 5 == 2 and len(case['steps']) >= 2:
                     case['copy_at'] = crng.randrange(1, len(case['steps']))
                     case['copy_how'] = crng.choice(['pickle', 'deepcopy'])
